@@ -1,7 +1,7 @@
 """C01 - every reported match is a genuine rigid-motion image of the pattern."""
 import numpy as np
 
-from .. import findcheck, seams, worlds
+from .. import findcheck, geom, seams, worlds
 from ..core import Violation
 
 ID = "C01"
@@ -18,7 +18,7 @@ NRUNS = {"quick": 4000, "thorough": 60000}
 
 
 def generate(rng, tier):
-    return worlds.gen_find_world(rng, moderate_noise=True)
+    return worlds.gen_find_world(rng, moderate_noise=True, allow_rotated=True, cell_families=geom.CELL_FAMILIES + ["tri_upper", "tri_left"])
 
 
 def execute(spec, ctx):
